@@ -11,6 +11,8 @@ package keygen
 //@   requires group != nil
 //@   ensures[C20] result1 != nil ==> result0 == nil
 //@   ensures[C20] result1 == nil ==> (result0 != nil && ((old(secretShare) == nil) == (old(public) == nil)))
+// (induction on the session object) the first round starts from the state invariant its methods assume
+//@   ensures result1 == nil ==> ((typeis(result0, *round1R) ==> d0rok(result0.(*round1R))) && (typeis(result0, *round1S) ==> (d1sok(result0.(*round1S)))) && (typeis(result0, *round1R) || typeis(result0, *round1S)))
 
 // ---- derivation (C14): a new configuration; the parent is left untouched; public + adjust*G; the shares are additive,
 // so exactly one of them absorbs the adjustment: receiver share + adjust, sender share unchanged (composition lemma
